@@ -223,6 +223,8 @@ def call_parse(case):
             raise
         res["exc"], res["mro"] = exc_name(e)
         res["msg"] = str(e)[:200]
+    if case.get("pk") and not res["exc"]:
+        res["pk"] = _pickle_copy_ok(d)
     res["clock1"] = dt_to_list(_dt.datetime.now())
     res["uclock1"] = dt_to_list(_dt.datetime.now(_dt.timezone.utc).replace(tzinfo=None))
     evs = []
@@ -235,6 +237,32 @@ def call_parse(case):
     res["probe"] = evs
     res["unbound"] = list(_PROBE["unbound"])
     return res
+
+
+def _pickle_copy_ok(d):
+    import copy
+    import pickle
+    if d is None:
+        return True
+    try:
+        for e in (pickle.loads(pickle.dumps(d)), copy.copy(d), copy.deepcopy(d)):
+            if e != d or e.utcoffset() != d.utcoffset() or e.replace(tzinfo=None) != d.replace(tzinfo=None) or e.tzname() != d.tzname():
+                return False
+        return True
+    except Exception:
+        return False
+
+
+def tz_matches(req):
+    """exported relation: which rows of the loaded table match each string (regex engine = projection)"""
+    from dateparser import timezone_parser as T
+    out = []
+    for s in req["strings"]:
+        if not T._search_regex_ignorecase.search(s):
+            out.append([])
+            continue
+        out.append([i for i, (name, info) in enumerate(T._tz_offsets) if info["regex"].search(s)])
+    return out
 
 
 def _tzoff(z, rec):
